@@ -59,6 +59,8 @@ def static(items, elem=None):
         if is_int_value(js) and 0 <= js.as_long() < len(items):
             return items[js.as_long()]
         if not items:
+            if elem in ELEMS:                   # no index is in range: any value of the element kind will do
+                return ELEMS[elem][2]([fresh_int('noelem') for _ in range(ELEMS[elem][0])])
             raise OutOfSubset('element of an empty list')
         r = items[-1]
         for k in range(len(items) - 2, -1, -1):
@@ -196,7 +198,7 @@ class Lists:
             if any(isinstance(x, ast.Starred) for x in e.elts):
                 raise OutOfSubset('starred element in a list display')
             ex.use('axiom:[a, b, ...] is the list of its elements in order')
-            return static([ex.eval(st, x) for x in e.elts])
+            return static([ex.eval(st, x) for x in e.elts], None if e.elts else self.default_elem)
         return NotImplemented
 
     def call(self, ex, st, e, fname, args, kwargs):
@@ -278,6 +280,20 @@ class Lists:
                     ex.raise_if(st, step.t == 0, 'ValueError')
                     ex.oblige(st, 'slice.step_positive', step.t >= 1, kind='safety')
                 return stride(ex, recv, step.t)
+            if hi is None and lo is not None and L_items(recv) is None and _const(lo) >= 0 and (step is None or step.kind == 'int'):
+                # xs[c:] and xs[c::k] on a list of symbolic length: drop the first c elements, then stride
+                c = _const(lo)
+                ex.use('axiom:xs[c:] for a constant c >= 0 drops the first c elements')
+                rest = lazy(If(n > c, n - c, 0), lambda st2, q, recv=recv, c=c: L_at(st2, recv, zi(q) + c), elem_of(recv))
+                if step is None:
+                    return rest
+                ss = simplify(step.t)
+                if is_int_value(ss) and ss.as_long() <= 0:
+                    raise OutOfSubset('slice step %s' % ss)
+                if not is_int_value(ss):
+                    ex.raise_if(st, step.t == 0, 'ValueError')
+                    ex.oblige(st, 'slice.step_positive', step.t >= 1, kind='safety')
+                return stride(ex, rest, step.t)
             if step is None:
                 items = L_items(recv)
                 if items is None:
@@ -317,7 +333,7 @@ class Lists:
     def list_op(self, ex, st, op, *a):
         """used by the executor's filtered comprehension: 'empty' | 'append' (list, v) | 'fresh' (name, elem kind of v)"""
         if op == 'empty':
-            return static([])
+            return static([], self.default_elem)
         if op == 'append':
             return append(a[0], a[1])
         if op == 'fresh':
